@@ -203,6 +203,7 @@ type GenCfg struct {
 	Observers  bool // allow CSel/NSel observer calls
 	NoReset    bool // never start with Reset (zero-value histories)
 	ForceReset bool // always start with Reset
+	WildStops  bool // gradient stops in any order (C18: the caller's slice must not be touched whatever it holds)
 	ReadFirst  bool // bias towards reading state before writing it (C17's program B)
 	Dirty      bool // bias towards dirtying all state (C17's program A)
 }
@@ -471,6 +472,16 @@ func (g *gen) stops() []generate.GradientStop {
 		off += 1 + t.Intn(1+1024/(n+1))
 		if off > 1024 {
 			off = 1024
+		}
+	}
+	if g.cfg.WildStops && n > 1 && t.Bool() {
+		// document order rather than offset order, duplicates included
+		for i := n - 1; i > 0; i-- {
+			j := t.Intn(i + 1)
+			out[i], out[j] = out[j], out[i]
+		}
+		if t.Chance(1, 3) {
+			out[t.Intn(n)].Offset = out[t.Intn(n)].Offset
 		}
 	}
 	return out
